@@ -9,7 +9,8 @@
 //
 //   SCCACHE_DIST_VERIF=sched-gen:<cases>:<seed>:<trace_out>:<script_out>
 //   SCCACHE_DIST_VERIF=sched-run:<script>:<trace_out>
-//   SCCACHE_DIST_VERIF=paths:<pairs_file>:<out>      (lines `cwd\tpath` -> `cwd\tpath\tjoin\tjoin_suffix\tparent`)
+//   SCCACHE_DIST_VERIF=paths:<pairs_file>:<out>[:<root>]   (lines `cwd\tpath` -> `cwd\tpath\tjoin\tjoin_suffix\tparent\tresolve_inside`;
+//                      the last column is `ok <path below root>` / `err` of resolve_inside(<root>, cwd.join(path), false), `-` without <root>)
 use super::*;
 use std::cell::RefCell;
 use std::fmt::Write as _;
@@ -530,14 +531,28 @@ pub fn run(spec: &str) -> i32 {
                 let joined = Path::new(cwd).join(path);
                 let js = crate::build::verif_join_suffix(Path::new("/srv/b/t"), &joined);
                 let parent = Path::new(path).parent().map(|x| x.to_str().unwrap().to_string());
+                let inside = match p.get(3) {
+                    None => "-".to_string(),
+                    Some(root) => {
+                        let root = std::fs::canonicalize(root).unwrap();
+                        match crate::build::verif_resolve_inside(&root, &joined, false) {
+                            Ok(r) => match r.strip_prefix(&root) {
+                                Ok(rel) => format!("ok /{}", rel.to_str().unwrap()),
+                                Err(_) => format!("OUTSIDE {}", r.to_str().unwrap()),
+                            },
+                            Err(_) => "err".to_string(),
+                        }
+                    }
+                };
                 let _ = writeln!(
                     out,
-                    "{}\t{}\t{}\t{}\t{}",
+                    "{}\t{}\t{}\t{}\t{}\t{}",
                     cwd,
                     path,
                     joined.to_str().unwrap(),
                     js.to_str().unwrap(),
-                    parent.unwrap_or("<none>".into())
+                    parent.unwrap_or("<none>".into()),
+                    inside
                 );
             }
             std::fs::write(p[2], out).unwrap();
